@@ -29,6 +29,20 @@ def main():
     emit_lean.emit_tables(ir)
     emit_lean.emit_witness(ir)
     emit_lean.emit_comp(ir)
+    # C16: the same translation applied to what tasks/xonsh.gram generates NOW (a scratch module, regenerated when the
+    # grammar, the generator or pegen change); the certificate regenerated_ir_equals_shipped compares the two in the kernel
+    try:
+        from harness import sync
+
+        sync.ensure()
+        regen = CACHE / "regen" / "parser_regen.py"
+        ir2 = Translator(regen).run() if regen.exists() else None
+    except Exception as e:  # noqa: BLE001
+        ir2 = None
+        problems.append(f"regenerated parser: {type(e).__name__}: {e}")
+    if ir2 is None:
+        ir2 = {"rules": [], "unmodelled": [], "strings": {}, "keywords": [], "soft_keywords": []}
+    emit_lean.emit_parser_ir(ir2, emit_lean.GEN / "ParserIRRegen.lean", namespace="XV.GenRegen", origin="the module tasks/generator.py generates from tasks/xonsh.gram in this run")
     from harness.translate import actions, inventory
 
     try:
